@@ -117,4 +117,14 @@ that is not strictly smaller, and `sortBy` folds from the right, so equal keys k
 def sortByName {α : Type} (name : α → Str) (xs : List α) : List α :=
   sortBy (fun a b => strLt (name a) (name b)) xs
 
+/-- lark `common.WS`: `[ \t\f\r\n]+` -/
+def isWS (c : Char) : Bool := c == ' ' || c == '\t' || c == '\x0c' || c == '\r' || c == '\n'
+def isLetter (c : Char) : Bool := ('a' ≤ c && c ≤ 'z') || ('A' ≤ c && c ≤ 'Z')
+def isDigitC (c : Char) : Bool := '0' ≤ c && c ≤ '9'
+def isNameStart (c : Char) : Bool := isLetter c || c == '_'
+def isNameChar (c : Char) : Bool := isLetter c || c == '_' || isDigitC c
+
+/-- `str(n)` for a natural number -/
+def natStr (n : Nat) : Str := (Nat.repr n).toList
+
 end PyOak
